@@ -427,6 +427,17 @@ func (g *zgen) httpScenario(sc *c11Scenario) {
 	for i := 0; i < nq; i++ {
 		sc.Query = append(sc.Query, [2]string{c11Qs[(st+i)%len(c11Qs)], pick(g.t, []string{"1", "v", ""})})
 	}
+	// the number of names is a size like any other: a request may carry hundreds or thousands
+	if x := g.t.Draw(8); x >= 6 {
+		many := []int{999, 1000, 1001, 1500, 64, 65}[g.t.Draw(6)]
+		for i := 0; i < many; i++ {
+			if x == 6 {
+				sc.Query = append(sc.Query, [2]string{fmt.Sprintf("p%04d", i), "1"})
+			} else {
+				sc.Headers = append(sc.Headers, [2]string{fmt.Sprintf("X-H%04d", i), "1"})
+			}
+		}
+	}
 	expr := pick(g.t, []string{
 		"当前请求 之 头部", "当前请求 之 查询参数",
 		"头 之 所有索引", "参 之 所有索引",
